@@ -513,8 +513,7 @@ fn instruction<B: RefBus>(s: &mut RefState, bus: &mut B) {
         0xFD => indexed(s, bus, Idx::Iy),
         0xED => {
             let op = fetch_m1(s, bus);
-            let q_prev = latch_q(s);
-            let _ = q_prev;
+            let _ = latch_q(s);
             exec_ed(s, bus, op);
         }
         0xCB => {
@@ -592,7 +591,7 @@ fn exec_main<B: RefBus>(s: &mut RefState, bus: &mut B, op: u8, idx: Idx, q_prev:
                 _ => {
                     // JR d / JR cc,d (cc = NZ,Z,NC,C)
                     let d = bus.mem_read(s.pc);
-                    if y == 3 || cond(s, y - 4) {
+                    if y == 3 || cond(s, y & 3) {
                         bus.internal(s.pc, 5);
                         s.pc = add_disp(s.pc.wrapping_add(1), d);
                         s.memptr = s.pc;
